@@ -88,6 +88,14 @@ func c19Scenarios() []c19Scenario {
 				}
 			}
 			gs["did"] = cdc.MustMarshalJSON(&didtypes.GenesisState{Documents: docs})
+			// PNFT holders with boundary address bytes too (x/nft's owner index separates key components by a 0x00 byte)
+			e := newDomEnv()
+			pg := pnfttypes.GenesisState{Denoms: []*pnfttypes.Denom{{Id: "gz", Name: "n", Symbol: "S", Owner: e.A.Bech}}}
+			zeroMid := append(append(bytes.Repeat([]byte{0x33}, 9), 0x00), bytes.Repeat([]byte{0x44}, 10)...)
+			for i, holder := range [][]byte{zeroMid, bytes.Repeat([]byte{0x00}, 20), ff, append([]byte{0x00}, bytes.Repeat([]byte{0x55}, 19)...), append(bytes.Repeat([]byte{0x66}, 19), 0x00)} {
+				pg.Pnfts = append(pg.Pnfts, &pnfttypes.Pnft{DenomId: "gz", Id: fmt.Sprintf("z%d", i), Name: "tok", Creator: e.A.Bech, Owner: sdk.AccAddress(holder).String(), CreatedAt: world.BaseTime})
+			}
+			gs["pnft"] = cdc.MustMarshalJSON(&pg)
 		}},
 		{name: "malformed-did-update-attempted", setup: func(e *domEnv, w *world.World) {
 			// an owner-signed update to a document with a dangling relationship: refused by a correct chain; if a tree stores it,
